@@ -18,7 +18,7 @@ pub enum SR {
     List(Vec<(i64, u64, Vec<SR>)>, bool),
     Filter(u64, Vec<SR>),
     /// composite: all buckets in composite-key order; the page shows the first `size`
-    Comp { all: Vec<(Vec<i64>, u64, Vec<SR>)>, size: usize },
+    Comp { name: String, sources: Vec<CSrc>, all: Vec<(Vec<i64>, u64, Vec<SR>)>, size: usize },
 }
 
 #[derive(Clone, Copy, PartialEq, Debug)]
@@ -163,7 +163,7 @@ fn eval_one(n: &Node, docs: &[&MDoc], all_terms: &dyn Fn(Fd) -> Vec<i64>, sem: S
             let g = group(docs, sem, |d| d[field.id()].iter().map(|&v| idx(v)).collect());
             SR::List((0..=cuts.len() as i64).map(|k| match g.get(&k) { Some(ids) => (k, ids.len() as u64, sub(ids)), None => (k, 0, sub(&vec![])) }).collect(), absent)
         }
-        Agg::Composite { sources, size } => {
+        Agg::Composite { sources, size, after } => {
             let mut m: BTreeMap<Vec<i64>, Vec<usize>> = BTreeMap::new();
             for (i, d) in docs.iter().enumerate() {
                 let per: Vec<Vec<i64>> = sources.iter().map(|s| csrc_vals(s, d, sem.per_value)).collect();
@@ -182,7 +182,17 @@ fn eval_one(n: &Node, docs: &[&MDoc], all_terms: &dyn Fn(Fd) -> Vec<i64>, sem: S
                 }
                 std::cmp::Ordering::Equal
             });
-            SR::Comp { all, size: *size as usize }
+            if let Some(a) = after {
+                // strictly after the given key in composite-key order
+                all.retain(|b| {
+                    for (i, s) in sources.iter().enumerate() {
+                        let c = if s.desc { a[i].cmp(&b.0[i]) } else { b.0[i].cmp(&a[i]) };
+                        if c != std::cmp::Ordering::Equal { return c == std::cmp::Ordering::Greater; }
+                    }
+                    false
+                });
+            }
+            SR::Comp { name: n.name.clone(), sources: sources.clone(), all, size: *size as usize }
         }
         Agg::Filter { field, code } => {
             let ids: Vec<usize> = (0..docs.len()).filter(|&i| docs[i][field.id()].contains(code)).collect();
@@ -220,7 +230,8 @@ pub fn srs_to_lean(srs: &[SR], ranks: &Ranks) -> String {
     }
     fn one(s: &SR, ranks: &Ranks) -> String {
         match s {
-            SR::Metric { kind: MK::Percentiles | MK::Cardinality | MK::TopHits, .. } | SR::Hits(_) => "N".into(),
+            SR::Hits(vs) => format!("H[{}]", vs.iter().map(|v| format!("{v}:{v}")).collect::<Vec<_>>().join(";")),
+            SR::Metric { kind: MK::Percentiles | MK::Cardinality | MK::TopHits, .. } => "N".into(),
             SR::Metric { field, .. } if field.is_str() => "N".into(),
             SR::Metric { count, sum, sumsq, min, max, .. } => format!("M[{count},{sum},{sumsq},{},{}]", opt_s(*min), opt_s(*max)),
             SR::Terms { field, all, size, .. } => {
@@ -230,7 +241,8 @@ pub fn srs_to_lean(srs: &[SR], ranks: &Ranks) -> String {
             }
             SR::List(bs, _) => format!("L[{}]", buckets(bs, ranks, None)),
             SR::Filter(c, s) => format!("F[{c}:{}]", srs_to_lean(s, ranks)),
-            SR::Comp { .. } => "N".into(),
+            SR::Comp { name, sources, all, size } => format!("L[{}]", all[..(*size).min(all.len())].iter()
+                .map(|(k, c, s)| format!("{}:{c}:{}", ranks.comp_code(name, sources, k), srs_to_lean(s, ranks))).collect::<Vec<_>>().join(";")),
         }
     }
     match srs.len() {
@@ -247,7 +259,7 @@ pub fn bucket_count_all(srs: &[SR]) -> u64 {
         SR::Terms { all, size, .. } => all[..(*size).min(all.len())].iter().map(|b| 1 + bucket_count_all(&b.2)).sum(),
         SR::List(bs, _) => bs.iter().map(|b| 1 + bucket_count_all(&b.2)).sum(),
         SR::Filter(_, s) => bucket_count_all(s),
-        SR::Comp { all, size } => all[..(*size).min(all.len())].iter().map(|b| 1 + bucket_count_all(&b.2)).sum(),
+        SR::Comp { all, size, .. } => all[..(*size).min(all.len())].iter().map(|b| 1 + bucket_count_all(&b.2)).sum(),
         _ => 0,
     }).sum()
 }
@@ -259,7 +271,7 @@ pub fn bucket_count(srs: &[SR]) -> u64 {
         SR::List(_, true) => 0,
         SR::List(bs, false) => bs.iter().map(|b| 1 + bucket_count(&b.2)).sum(),
         SR::Filter(_, s) => bucket_count(s),
-        SR::Comp { all, size } => all[..(*size).min(all.len())].iter().map(|b| 1 + bucket_count(&b.2)).sum(),
+        SR::Comp { all, size, .. } => all[..(*size).min(all.len())].iter().map(|b| 1 + bucket_count(&b.2)).sum(),
         _ => 0,
     }).sum()
 }
